@@ -17,7 +17,8 @@
 import CatVerif.Proofs.Hold
 import CatVerif.Proofs.Log
 import CatVerif.Proofs.Setters
-import CatVerif.Proofs.Steps
+import CatVerif.Proofs.Steps.Hold
+import CatVerif.Proofs.Steps.Loops
 namespace Cat
 open St
 
@@ -103,5 +104,12 @@ theorem C14_release_generated (D : Desc) (s : St) : processHoldState D s = Gen.p
 /-- `hold_exit` (refused outside a hold; otherwise records OK or ERROR) is the function whose
 statements are re-recognised in the source on every run (translator item T14) -/
 theorem C14_hold_exit_generated : holdExit = Gen.hold_exit := holdExit_generated
+
+/-- the four handler loops — where a HOLD answer puts the machine on hold and a HOLD_EXIT answer releases it — have the
+shape re-recognised in the source on every run (translator item T19; their return-code tables are T3) -/
+theorem C14_loops_generated (D : Desc) (s : St) (f : Fsm) (i : SvcIn) :
+    processWriteLoop D s i = Gen.process_write_loop_fn D s i ∧ processRunLoop D s i = Gen.process_run_loop_fn D s i ∧
+    processReadLoop D s f i = Gen.process_read_loop_fn D s f i ∧ processTestLoop D s f i = Gen.process_test_loop_fn D s f i :=
+  ⟨rfl, rfl, rfl, rfl⟩
 
 end Cat
